@@ -415,7 +415,8 @@ func (s *ScrewSDF3) Evaluate(p v3.Vec) float64 {
 	// the distance from the 3d z-axis maps to the 2d y-axis
 	p0.Y = math.Sqrt(p.X*p.X + p.Y*p.Y)
 	if s.taper != 0 {
-		p0.Y += p.Z * math.Tan(s.taper)
+		// a point closer to the axis than the taper offset is inside, not below the profile
+		p0.Y = math.Abs(p0.Y + p.Z*math.Tan(s.taper))
 	}
 	// the x/y angle and the z-height map to the 2d x-axis
 	// ie: the position along thread pitch
